@@ -216,7 +216,7 @@ impl Property for C17 {
         // only in a band of capacities whose place depends on the input), with state-carrying trivia after the header
         let dense = rng.chance(1, 6);
         if !lib && (dense || rng.chance(1, 3)) {
-            let after = match if dense { rng.below(5) } else { rng.below(8) } {
+            let after = match if dense { if rng.coin() { 4 } else { rng.below(5) } } else { rng.below(8) } {
                 0 => gen::pragma_lines(&mut rng),
                 1 => "`pragma protect begin_protected\n  wire env;\n`pragma protect end_protected\n".to_string(),
                 2 => "/* after header */\n".to_string(),
@@ -230,8 +230,8 @@ impl Property for C17 {
                     text.insert_str(i, if rng.coin() { "`pragma reset protect\n  wire after_reset;\n" } else { "`pragma foo\n" });
                 }
             }
-            text = gen::rewrap_nonansi_with(&text, &after);
-            if rng.chance(1, 4) {
+            text = if dense && rng.coin() { gen::rewrap_nonansi_early(&text, &after) } else { gen::rewrap_nonansi_with(&text, &after) };
+            if !dense && rng.chance(1, 4) {
                 // near-valid headers: what the (failing) ANSI attempt tolerates and memoises, the non-ANSI attempt may replay
                 if let Some(rest) = text.strip_prefix("module m(zz_p);") {
                     let head = *rng.pick(&["module m(zz_p,);", "module m #(parameter ZP = 1,) (zz_p);", "module m #(parameter ZP = 1) (zz_p,);", "module m #(ZP = 1,) (zz_p);"]);
